@@ -152,6 +152,23 @@ impl Router {
     }
 
     fn on_request(&self, request: Request) -> bool {
+        use std::panic::AssertUnwindSafe;
+
+        // a handler that panics must still answer, or the client waits forever
+        let id = request.id.clone();
+        panic::catch_unwind(AssertUnwindSafe(|| self.process_request(request))).unwrap_or_else(
+            |_| {
+                self.respond(Response::new_err(
+                    id,
+                    ErrorCode::InternalError as i32,
+                    "error handling request".to_string(),
+                ));
+                false
+            },
+        )
+    }
+
+    fn process_request(&self, request: Request) -> bool {
         if request.method == "shutdown" {
             self.respond(Response {
                 id: request.id.clone(),
@@ -171,6 +188,12 @@ impl Router {
                 method: "workspace/applyEdit".to_string(),
                 params: to_value(result).unwrap(),
             }));
+
+            self.respond(Response {
+                id: request.id.clone(),
+                result: Some(serde_json::Value::Null),
+                error: None,
+            });
 
             return false;
         }
